@@ -379,6 +379,45 @@ def metadata_variants(_=None) -> Dict[str, Any]:
     return {"problems": problems, "stats": {"metadata_cases": n}}
 
 
+def user_fields_named_like_padding(_=None) -> Dict[str, Any]:
+    """(g) automatic padding never reorders, resizes or drops a USER field - also when the user's own field is called padding_<n>_
+    (hand-written reserve space in existing definition files is commonly named exactly so)"""
+    problems = []
+    n = 0
+    d = core.scratch_dir("c11u")
+    cases = {
+        # name -> (fields, natural size, expected user fields with sizes in order)
+        "RESERVE": ({"a": "int32", "padding_0_": "char[12]", "b": "int64"}, 24),
+        "SPARE": ({"a": "int64", "padding_0_": "char[8]", "b": "int64"}, 24),
+        "STAMP": ({"seq": "int32", "padding_1_": "int32", "t": "double"}, 16),
+        "TAILRES": ({"a": "double", "padding_0_": "char[8]"}, 16),
+        "NEEDS": ({"c": "char", "padding_7_": "char[2]", "x": "int32"}, None),  # needs one generated pad next to the user's own
+    }
+    try:
+        for as_msg in (False, True):
+            for name, (fields, size) in cases.items():
+                n += 1
+                sec = {"message_defs": {name: {"id": 4700, "fields": fields}}} if as_msg else {"struct_defs": {name: {"fields": fields}}}
+                root = defx.Program({"root.yaml": sec}).write(d)
+                try:
+                    p = defx.parse_model(root, import_coredefs=False)
+                except Exception as e:
+                    problems.append({"kind": "user-padding-field-rejected", "name": name, "msg": as_msg, "exc": f"{type(e).__name__}: {str(e)[:120]}"})
+                    continue
+                dd = (p.message_defs if as_msg else p.struct_defs)[name]
+                got = [(f.name, f.type_name, f.length) for f in dd.fields]
+                user = [(fn, ft.split("[")[0], int(ft.split("[")[1][:-1]) if "[" in ft else None) for fn, ft in fields.items()]
+                # every user field survives, in order, with its type and length
+                it = iter(got)
+                missing = [u for u in user if not any(g[0] == u[0] and g[1] == u[1] and (g[2] or None) == u[2] for g in it)]
+                if missing or (size is not None and dd.size != size):
+                    problems.append({"kind": "user-field-changed-by-auto-padding", "name": name, "msg": as_msg, "user_fields": user, "compiled_fields": got,
+                                     "size": dd.size, "natural_size": size})
+    finally:
+        core.rmtree(d)
+    return {"problems": problems, "stats": {"user_padding_cases": n}}
+
+
 def cli_options(_=None) -> Dict[str, Any]:
     """compiler_options written in the definition file must reach the parser when the command line entry point is used"""
     import contextlib
@@ -449,6 +488,7 @@ def run(tier: str) -> int:
     res.append(cli_options())
     res.append(renamed_layouts())
     res.append(metadata_variants())
+    res.append(user_fields_named_like_padding())
     core.close_pool()
     totals: Dict[str, int] = {}
     for r in res:
@@ -460,7 +500,7 @@ def run(tier: str) -> int:
     chk.sample({"sequence": list(seqs[0]), "fields": fields_of(seqs[0]), "reference": reference_layout(seqs[0])})
     chk.sample({"sequence": list(seqs[-1]), "fields": fields_of(seqs[-1]), "reference": reference_layout(seqs[-1])})
     chk.assumptions += ["gcc (x86-64 SysV) layout is the ground truth for C", "ctypes layout for Python", "import_coredefs off (layout code is independent of the core definitions)"]
-    return chk.finish({"evaluations": totals.get("cases", 0) * 2 + totals.get("size_cases", 0) + totals.get("renamed_cases", 0) + totals.get("metadata_cases", 0), "distinct_nontrivial": totals.get("padded", 0)})
+    return chk.finish({"evaluations": totals.get("cases", 0) * 2 + totals.get("size_cases", 0) + totals.get("renamed_cases", 0) + totals.get("metadata_cases", 0) + totals.get("user_padding_cases", 0), "distinct_nontrivial": totals.get("padded", 0)})
 
 
 def replay(case) -> int:
@@ -469,6 +509,8 @@ def replay(case) -> int:
         r = cli_options()
     elif "earlier-compilation" in p.get("kind", ""):
         r = renamed_layouts()
+    elif "user" in p.get("kind", ""):
+        r = user_fields_named_like_padding()
     elif "metadata" in p.get("kind", "") or p.get("kind") == "layout-reference-unexpected":
         r = metadata_variants()
     elif "seq" not in p:
